@@ -388,6 +388,10 @@ def search(ctx, boost=1, focus=()):
                              {"radius_outer": radius * 1.3, "search": radius * 1.3},
                              {"radius_outer": radius * 1.3, "search": radius * 1.299}, {"search": radius * 1.5},
                              {"search": radius * 1.49}, {"radius_outer": radius * 0.9, "search": 3 * radius}]
+            # a search range just below the limit (one ulp, 1e-9, 1e-6 relative) is below the limit
+            lim_ = radius * 1.3 if bs else radius
+            for sv in (float(np.nextafter(lim_, 0)), lim_ * (1 - 1e-9), lim_ * (1 - 1e-6), lim_ * (1 - 5e-6)):
+                variants.append({"radius_outer": radius * 1.3, "search": sv} if bs else {"search": sv})
             # an explicit zero is a value like any other (and inconsistent: the search range / outer radius cannot be below the radius)
             variants += [{"search": 0}, {"search": 0.0}]
             if bs:
